@@ -144,11 +144,16 @@ theorem tap_dance_tick_total (w : Waiting) (acts : List Action) (t n : Nat)
     simp only [List.getElem?_eq_getElem hidx]
     exact ⟨_, rfl⟩
 
-/-! ### A crash that is still there (recorded as a known finding) -/
+/-! ### The edge of the layer table (not reachable from the event loop) -/
 
 /-- **input_code_767_counterexample**: the layer tables have 767 columns (0‥766) but key code 767
-(`KEY_MAX`) is a valid `OsCode`; an input event with that code indexes out of bounds
-(`resolve_coord` asserts `y <= len` instead of `y < len`). Reproduced on the real code. -/
+(`KEY_MAX`) is a valid `OsCode`; `handle_input_event` called with that code indexes out of bounds
+(`resolve_coord` asserts `y <= len` instead of `y < len`). This is a fact about the function, not
+a defect of kanata: the event loop hands an event to `handle_input_event` only if its code is in
+`MAPPED_KEYS`, and no configuration maps 767 (C11 `mapped_set_spec`; `parse_deflocalkeys` refuses it
+since 414291c). It was first recorded as a known finding because the harness called
+`handle_input_event` with every code; that was a false alarm of the harness and has been withdrawn
+(the generator now stays below `KEYS_IN_ROW`, as the event loop does). -/
 theorem input_code_767_counterexample (s : Layout) (l : Nat) (rest : List Nat)
     (hl : l < s.cfg.layers.length) (hr : s.cfg.rows = 2) (hc : s.cfg.cols = 767) :
     ∃ site, s.resolveCoord (0, 767) (l :: rest) = .error (.indexOOB site) := by
